@@ -285,8 +285,8 @@ func (c *Ctx) finish(verifDir string, seed int, start time.Time, explanation str
 		"checker_cmd":        fmt.Sprintf("/verif/bin/protolint -repo %s -property %s -tier %s", c.P.Dir, c.Prop, c.Tier),
 		"trusted_base": []string{"go/types type checker", "golang.org/x/tools v0.29.0 go/packages, go/ssa, go/cfg, callgraph/vta",
 			"third-party libraries (tools-golang, cyclonedx-go, protobuf, encoding/json) are loaded for types and constants only and are not analysed"},
-		"exhaustive": true,
-		"packages":   len(c.P.Pkgs),
+		"exhaustive":              true,
+		"packages":                len(c.P.Pkgs),
 		"module_functions_loaded": len(c.P.Funcs),
 	}
 	for k, v := range extra {
